@@ -486,10 +486,403 @@ theorem rangeCardinality_spec (b : Bitmap) (h : b.WF) (lo hi : Bound)
     obtain ⟨hse, _, _⟩ := Spec.interval_some u32Max lo hi st en hiv
     exact rcOk_eq st en hse b h.dir
 
+/-! ### `contains_range` -/
+
+/-- on a sorted list, "the interval `[a, b]` contributes `b - a + 1` elements" means "all of it is present" -/
+theorem count_eq_iff (s : List Nat) (hs : Sorted s) (a b : Nat) (hab : a ≤ b) :
+    (s.filter (fun x => decide (a ≤ x) && decide (x ≤ b))).length = b - a + 1 ↔
+      ∀ x, a ≤ x → x ≤ b → x ∈ s := by
+  have hcongr : s.filter (fun x => decide (a ≤ x) && decide (x ≤ b))
+      = s.filter (fun x => decide (a ≤ x) && decide (x < a + (b - a + 1))) := by
+    apply List.filter_congr
+    intro x _
+    rw [Bool.eq_iff_iff]
+    simp only [Bool.and_eq_true, decide_eq_true_eq]
+    omega
+  constructor
+  · intro hlen x h1 h2
+    have hb := Arr.sorted_bounded_length _ (Arr.sorted_filter hs (fun x => decide (a ≤ x) && decide (x ≤ b)))
+      a (b - a + 1) (by
+        intro x hx
+        have := (List.mem_filter.mp hx).2
+        simp only [Bool.and_eq_true, decide_eq_true_eq] at this
+        omega)
+    exact (List.mem_filter.mp (hb.2 hlen x h1 (by omega))).1
+  · intro hall
+    rw [hcongr, Arr.filter_range_of_forall s hs a (b - a + 1) (fun x h1 h2 => hall x h1 (by omega)),
+      List.length_range']
+
+theorem cIsFull_iff (c : Container) (hc : c.store.Inv) :
+    c.isFull = true ↔ ∀ x, x < 65536 → x ∈ c.store.elems := by
+  unfold Container.isFull Store.isFull
+  rw [beq_iff_eq, Store.len_eq _ hc]
+  have hs := Store.sorted_elems _ hc
+  have hb := Arr.sorted_bounded_length c.store.elems hs 0 65536 (by
+    intro x hx
+    have := Store.elems_lt _ hc x hx
+    omega)
+  constructor
+  · intro hlen x hx
+    exact hb.2 hlen x (by omega) (by omega)
+  · intro hall
+    have := Arr.filter_range_of_forall c.store.elems hs 0 65536 (fun x _ h2 => hall x (by omega))
+    have h2 := List.length_filter_le (fun x => decide (0 ≤ x) && decide (x < 0 + 65536)) c.store.elems
+    rw [this, List.length_range'] at h2
+    have := hb.1
+    omega
+
+theorem mem_chunk_exists (b : Bitmap) (k x : Nat) (h : x ∈ chunk b k) :
+    ∃ d ∈ b, d.key = k ∧ x ∈ d.store.elems := by
+  induction b with
+  | nil => simp [chunk] at h
+  | cons c cs ih =>
+    by_cases hk : c.key = k
+    · rw [chunk_cons_eq c cs k hk] at h
+      exact ⟨c, List.mem_cons_self .., hk, h⟩
+    · rw [chunk_cons_ne c cs k hk] at h
+      obtain ⟨d, hd, h1, h2⟩ := ih h
+      exact ⟨d, List.mem_cons_of_mem _ hd, h1, h2⟩
+
+theorem chunk_of_mem (b : Bitmap) (h : b.Dir) (d : Container) (hd : d ∈ b) :
+    chunk b d.key = d.store.elems := by
+  induction b with
+  | nil => simp at hd
+  | cons c cs ih =>
+    rcases List.mem_cons.mp hd with hd' | hd'
+    · subst hd'; exact chunk_cons_eq _ cs _ rfl
+    · have := h.head_lt d hd'
+      rw [chunk_cons_ne c cs _ (by omega)]
+      exact ih h.tail hd'
+
+/-- keys are strictly ascending: the `n`-th container after a key `k` has key at least `k + 1 + n` -/
+theorem key_lower : ∀ (rest : Bitmap) (k n : Nat) (last : Container), rest.Dir →
+    (∀ d ∈ rest, k < d.key) → rest[n]? = some last → k + 1 + n ≤ last.key := by
+  intro rest
+  induction rest with
+  | nil => intro k n last _ _ h; simp at h
+  | cons r0 rest' ih =>
+    intro k n last hdir hk hget
+    have hk0 := hk r0 (List.mem_cons_self ..)
+    cases n with
+    | zero =>
+      simp only [List.getElem?_cons_zero, Option.some.injEq] at hget
+      subst hget; omega
+    | succ n =>
+      simp only [List.getElem?_cons_succ] at hget
+      have := ih r0.key n last hdir.tail hdir.head_lt hget
+      omega
+
+/-- `containers.get(span)` having the expected key forces the keys in between to be consecutive; the
+    positional check of `contains_range` is therefore a statement about consecutive chunks -/
+theorem run_iff (Q : Container → Prop) : ∀ (n k : Nat) (rest : Bitmap), rest.Dir →
+    (∀ d ∈ rest, k < d.key) →
+    ((∃ last, rest[n]? = some last ∧ last.key = k + 1 + n ∧
+        (∀ d ∈ rest.take n, d.isFull = true) ∧ Q last) ↔
+     ((∀ j, j < n → ∀ x, x < 65536 → x ∈ chunk rest (k + 1 + j)) ∧
+        ∃ last ∈ rest, last.key = k + 1 + n ∧ Q last)) := by
+  intro n
+  induction n with
+  | zero =>
+    intro k rest hdir hk
+    constructor
+    · rintro ⟨last, hget, hkey, _, hQ⟩
+      exact ⟨fun j hj => absurd hj (Nat.not_lt_zero _), last, List.mem_of_getElem? hget, hkey, hQ⟩
+    · rintro ⟨_, last, hmem, hkey, hQ⟩
+      cases rest with
+      | nil => simp at hmem
+      | cons r0 rest' =>
+        have hk0 := hk r0 (List.mem_cons_self ..)
+        rcases List.mem_cons.mp hmem with hl | hl
+        · subst hl
+          exact ⟨last, by simp, hkey, by simp, hQ⟩
+        · have := hdir.head_lt last hl
+          omega
+  | succ n ih =>
+    intro k rest hdir hk
+    cases rest with
+    | nil => simp
+    | cons r0 rest' =>
+      have hk0 := hk r0 (List.mem_cons_self ..)
+      have hlt := hdir.head_lt
+      have hinv0 := hdir.inv (List.mem_cons_self ..)
+      have IH := ih (k + 1) rest' hdir.tail (fun d hd => by have := hlt d hd; omega)
+      constructor
+      · rintro ⟨last, hget, hkey, hfull, hQ⟩
+        simp only [List.getElem?_cons_succ] at hget
+        simp only [List.take_succ_cons, List.mem_cons, forall_eq_or_imp] at hfull
+        have hlow := key_lower rest' r0.key n last hdir.tail hlt hget
+        have hr0 : r0.key = k + 1 := by omega
+        obtain ⟨hA, last', hmem', hkey', hQ'⟩ := IH.mp ⟨last, hget, by omega, hfull.2, hQ⟩
+        refine ⟨?_, last', List.mem_cons_of_mem _ hmem', by omega, hQ'⟩
+        intro j hj x hx
+        cases j with
+        | zero =>
+          rw [chunk_cons_eq r0 rest' _ (by omega)]
+          exact (cIsFull_iff r0 hinv0).mp hfull.1 x hx
+        | succ j =>
+          rw [chunk_cons_ne r0 rest' _ (by omega)]
+          have e : k + 1 + (j + 1) = k + 1 + 1 + j := by omega
+          rw [e]
+          exact hA j (by omega) x hx
+      · rintro ⟨hA, last, hmem, hkey, hQ⟩
+        have h0 := hA 0 (by omega) 0 (by omega)
+        have hr0 : r0.key = k + 1 := by
+          by_cases hc : r0.key = k + 1
+          · exact hc
+          · rw [chunk_cons_ne r0 rest' _ (by omega)] at h0
+            rw [chunk_nil_of_lt (fun d hd => by have := hlt d hd; omega)] at h0
+            simp at h0
+        have hfull0 : r0.isFull = true := by
+          rw [cIsFull_iff r0 hinv0]
+          intro x hx
+          have := hA 0 (by omega) x hx
+          rw [chunk_cons_eq r0 rest' _ (by omega)] at this
+          exact this
+        have hmem' : last ∈ rest' := by
+          rcases List.mem_cons.mp hmem with hl | hl
+          · subst hl; omega
+          · exact hl
+        obtain ⟨last', hget', hkey', hfull', hQ'⟩ := IH.mpr ⟨by
+            intro j hj x hx
+            have := hA (j + 1) (by omega) x hx
+            rw [chunk_cons_ne r0 rest' _ (by omega)] at this
+            have e : k + 1 + (j + 1) = k + 1 + 1 + j := by omega
+            rw [e] at this
+            exact this, last, hmem', by omega, hQ⟩
+        refine ⟨last', by simpa using hget', by omega, ?_, hQ'⟩
+        simp only [List.take_succ_cons, List.mem_cons, forall_eq_or_imp]
+        exact ⟨hfull0, hfull'⟩
+
+/-- the check on the last container, as a statement about its chunk -/
+theorem last_iff (rest : Bitmap) (hdir : rest.Dir) (eh el : Nat) (hel : el < 65536) :
+    (∃ last ∈ rest, last.key = eh ∧ last.containsRange 0 el = true) ↔
+      ∀ x, x ≤ el → x ∈ chunk rest eh := by
+  constructor
+  · rintro ⟨last, hmem, hkey, hcr⟩ x hx
+    rw [← hkey, chunk_of_mem rest hdir last hmem]
+    exact (Store.containsRange_spec _ (hdir.inv hmem) 0 el (by omega) hel).mp hcr x (by omega) hx
+  · intro hall
+    obtain ⟨d, hd, hkey, _⟩ := mem_chunk_exists rest eh 0 (hall 0 (by omega))
+    refine ⟨d, hd, hkey, ?_⟩
+    unfold Container.containsRange
+    rw [Store.containsRange_spec _ (hdir.inv hd) 0 el (by omega) hel]
+    intro x _ hx
+    have := hall x hx
+    rw [← hkey, chunk_of_mem rest hdir d hd] at this
+    exact this
+
+/-- the body of `contains_range` once the range has been converted to `start ..= en` -/
+def crOk (b : Bitmap) (start en : Nat) : Bool :=
+  let sh := hi16 start; let sl := lo16 start
+  let eh := hi16 en; let el := lo16 en
+  match search b sh with
+  | (false, _) => false
+  | (true, i) =>
+    let cs := b.drop i
+    match cs with
+    | [] => false
+    | first :: _ =>
+      if sh = eh then first.containsRange sl el
+      else
+        let span := eh - sh
+        match cs[span]? with
+        | some last =>
+          if last.key = eh then
+            first.containsRange sl 65535
+              && ((cs.take span).drop 1).all Container.isFull
+              && last.containsRange 0 el
+          else false
+        | none => false
+
+theorem containsRange_eq (b : Bitmap) (lo hi : Bound) :
+    containsRange b lo hi =
+      match convertRange u32Max lo hi with
+      | .error _ => true
+      | .ok (s, e) => crOk b s e := rfl
+
+theorem crOk_cons_lt (c : Container) (cs : Bitmap) (st en : Nat) (h1 : c.key < hi16 st) :
+    crOk (c :: cs) st en = crOk cs st en := by
+  unfold crOk
+  simp only []
+  rw [search_cons]
+  simp only [h1, if_true]
+  cases hs : search cs (hi16 st) with
+  | mk f loc => cases f <;> simp
+
+theorem crOk_cons_gt (c : Container) (cs : Bitmap) (st en : Nat) (h3 : hi16 st < c.key) :
+    crOk (c :: cs) st en = false := by
+  unfold crOk
+  simp only []
+  rw [search_cons]
+  have h1 : ¬ c.key < hi16 st := by omega
+  have h2 : (c.key == hi16 st) = false := by simp; omega
+  simp [h1, h2]
+
+theorem crOk_cons_same (c : Container) (rest : Bitmap) (st en : Nat) (h2 : c.key = hi16 st)
+    (he : hi16 st = hi16 en) :
+    crOk (c :: rest) st en = c.containsRange (lo16 st) (lo16 en) := by
+  unfold crOk
+  simp only []
+  rw [search_cons]
+  simp [h2, he]
+
+theorem crOk_cons_span (c : Container) (rest : Bitmap) (st en : Nat) (h2 : c.key = hi16 st)
+    (n : Nat) (he : hi16 en = hi16 st + 1 + n) :
+    (crOk (c :: rest) st en = true ↔
+      c.containsRange (lo16 st) 65535 = true ∧
+      ∃ last, rest[n]? = some last ∧ last.key = c.key + 1 + n ∧
+        (∀ d ∈ rest.take n, d.isFull = true) ∧ last.containsRange 0 (lo16 en) = true) := by
+  unfold crOk
+  simp only []
+  rw [search_cons]
+  have hne : ¬ hi16 st = hi16 en := by omega
+  have hspan : hi16 en - hi16 st = n + 1 := by omega
+  have h1 : ¬ c.key < hi16 st := by omega
+  have hb : (c.key == hi16 st) = true := by simp [h2]
+  rw [if_neg h1, hb]
+  simp only [List.drop_zero, hne, if_false, hspan, List.getElem?_cons_succ,
+    List.take_succ_cons, List.drop_succ_cons]
+  cases hget : rest[n]? with
+  | none => simp
+  | some last =>
+    by_cases hk : last.key = hi16 en
+    · simp only [hk, if_true, Bool.and_eq_true, List.all_eq_true, Option.some.injEq]
+      constructor
+      · rintro ⟨⟨ha, hb⟩, hc⟩
+        exact ⟨ha, last, rfl, by omega, hb, hc⟩
+      · rintro ⟨ha, last', hl, _, hb, hc⟩
+        subst hl
+        exact ⟨⟨ha, hb⟩, hc⟩
+    · simp only [hk, if_false, Option.some.injEq]
+      constructor
+      · intro hf; exact absurd hf (by simp)
+      · rintro ⟨_, last', hl, hk', _, _⟩
+        subst hl; omega
+
+theorem crOk_head (c : Container) (rest : Bitmap) (hdir : Dir (c :: rest)) (st en : Nat)
+    (hse : st ≤ en) (h2 : c.key = hi16 st) :
+    (crOk (c :: rest) st en = true ↔ ∀ y, st ≤ y → y ≤ en → y ∈ elems (c :: rest)) := by
+  have hinv := hdir.inv (List.mem_cons_self ..)
+  have hsl : lo16 st < 65536 := by unfold lo16; omega
+  have hel : lo16 en < 65536 := by unfold lo16; omega
+  have hmem : ∀ y, y ∈ elems (c :: rest) ↔ y % 65536 ∈ chunk (c :: rest) (y / 65536) :=
+    mem_elems _ hdir
+  by_cases he : hi16 st = hi16 en
+  · rw [crOk_cons_same c rest st en h2 he]
+    unfold Container.containsRange
+    rw [Store.containsRange_spec _ hinv _ _ (by unfold hi16 lo16 at *; omega) hel]
+    constructor
+    · intro hall y h1 h3
+      rw [hmem, chunk_cons_eq c rest _ (by unfold hi16 at *; omega)]
+      exact hall _ (by unfold hi16 lo16 at *; omega) (by unfold hi16 lo16 at *; omega)
+    · intro hall x h1 h3
+      have := hall (c.key * 65536 + x) (by unfold hi16 lo16 at *; omega)
+        (by unfold hi16 lo16 at *; omega)
+      rw [hmem, chunk_cons_eq c rest _ (by unfold lo16 at *; omega)] at this
+      have e : (c.key * 65536 + x) % 65536 = x := by unfold lo16 at *; omega
+      rw [e] at this; exact this
+  · obtain ⟨n, hn⟩ : ∃ n, hi16 en = hi16 st + 1 + n :=
+      ⟨hi16 en - hi16 st - 1, by unfold hi16 at *; omega⟩
+    rw [crOk_cons_span c rest st en h2 n hn,
+      run_iff (fun last => last.containsRange 0 (lo16 en) = true) n c.key rest hdir.tail hdir.head_lt]
+    have hk : c.key + 1 + n = hi16 en := by omega
+    rw [hk, last_iff rest hdir.tail _ _ hel]
+    unfold Container.containsRange
+    rw [Store.containsRange_spec _ hinv _ _ (by omega) (by omega)]
+    constructor
+    · rintro ⟨hA, hB, hC⟩ y h1 h3
+      rw [hmem]
+      by_cases k1 : y / 65536 = c.key
+      · rw [chunk_cons_eq c rest _ k1.symm]
+        exact hA _ (by unfold hi16 lo16 at *; omega) (by omega)
+      · rw [chunk_cons_ne c rest _ (fun h => k1 h.symm)]
+        by_cases k2 : y / 65536 = hi16 en
+        · rw [k2]
+          exact hC _ (by unfold hi16 lo16 at *; omega)
+        · have e : y / 65536 = c.key + 1 + (y / 65536 - c.key - 1) := by
+            unfold hi16 at *; omega
+          rw [e]
+          exact hB _ (by unfold hi16 at *; omega) _ (by omega)
+    · intro hall
+      refine ⟨?_, ?_, ?_⟩
+      · intro x h1 h3
+        have := hall (c.key * 65536 + x) (by unfold hi16 lo16 at *; omega)
+          (by unfold hi16 lo16 at *; omega)
+        rw [hmem, chunk_cons_eq c rest _ (by omega)] at this
+        have e : (c.key * 65536 + x) % 65536 = x := by omega
+        rw [e] at this; exact this
+      · intro j hj x hx
+        have := hall ((c.key + 1 + j) * 65536 + x) (by unfold hi16 lo16 at *; omega)
+          (by unfold hi16 lo16 at *; omega)
+        have e1 : ((c.key + 1 + j) * 65536 + x) / 65536 = c.key + 1 + j := by omega
+        have e2 : ((c.key + 1 + j) * 65536 + x) % 65536 = x := by omega
+        rw [hmem, e1, e2, chunk_cons_ne c rest _ (by omega)] at this
+        exact this
+      · intro x hx
+        have := hall (hi16 en * 65536 + x) (by unfold hi16 lo16 at *; omega)
+          (by unfold hi16 lo16 at *; omega)
+        have e1 : (hi16 en * 65536 + x) / 65536 = hi16 en := by omega
+        have e2 : (hi16 en * 65536 + x) % 65536 = x := by omega
+        rw [hmem, e1, e2, chunk_cons_ne c rest _ (by omega)] at this
+        exact this
+
+theorem crOk_iff (st en : Nat) (hse : st ≤ en) : ∀ (b : Bitmap), b.Dir →
+    (crOk b st en = true ↔ ∀ y, st ≤ y → y ≤ en → y ∈ elems b) := by
+  intro b
+  induction b with
+  | nil =>
+    intro _
+    have : crOk [] st en = false := by simp [crOk, search_nil]
+    rw [this]
+    constructor
+    · intro hf; exact absurd hf (by simp)
+    · intro hall; have := hall st (Nat.le_refl _) hse; simp [elems] at this
+  | cons c cs ih =>
+    intro hdir
+    have hinv := hdir.inv (List.mem_cons_self ..)
+    have hb1 := cElems_bounds c hinv
+    have hb2 := elems_tail_bounds hdir
+    by_cases h1 : c.key < hi16 st
+    · rw [crOk_cons_lt c cs st en h1, ih hdir.tail]
+      constructor
+      · intro hall y hy1 hy2
+        rw [elems_cons, List.mem_append]; exact Or.inr (hall y hy1 hy2)
+      · intro hall y hy1 hy2
+        have := hall y hy1 hy2
+        rw [elems_cons, List.mem_append] at this
+        rcases this with hy | hy
+        · have := hb1 y hy
+          unfold hi16 at h1; omega
+        · exact hy
+    · by_cases h2 : c.key = hi16 st
+      · exact crOk_head c cs hdir st en hse h2
+      · rw [crOk_cons_gt c cs st en (by omega)]
+        constructor
+        · intro hf; exact absurd hf (by simp)
+        · intro hall
+          have := hall st (Nat.le_refl _) hse
+          rw [elems_cons, List.mem_append] at this
+          unfold hi16 at h1 h2
+          rcases this with hy | hy
+          · have := hb1 st hy; omega
+          · have := hb2 st hy; omega
+
 theorem containsRange_spec (b : Bitmap) (h : b.WF) (lo hi : Bound)
     (hlo : Bound.le u32Max lo) (hhi : Bound.le u32Max hi) :
     containsRange b lo hi = Spec.containsRange u32Max (elems b) lo hi := by
-  sorry
+  rw [containsRange_eq]
+  unfold Spec.containsRange
+  cases hc : convertRange u32Max lo hi with
+  | error e =>
+    rw [convertRange_error u32Max lo hi hlo hhi e hc]
+  | ok r =>
+    obtain ⟨st, en⟩ := r
+    have hiv := convertRange_ok u32Max lo hi hlo hhi st en hc
+    rw [hiv]
+    obtain ⟨hse, _, _⟩ := Spec.interval_some u32Max lo hi st en hiv
+    simp only []
+    rw [Bool.eq_iff_iff, crOk_iff st en hse b h.dir, beq_iff_eq,
+      count_eq_iff _ (sorted_elems b h.dir) st en hse]
 
 /-- `is_full` ⇔ the set is all of `0 ..= u32::MAX` -/
 theorem isFull_spec (b : Bitmap) (h : b.WF) : isFull b = Spec.isFull u32Max (elems b) := by
